@@ -572,6 +572,8 @@ func r18Release(c *core.Ctx, sh *txnShape) {
 	}
 	if len(held) == 0 {
 		c.OKTrivial("R18.5", tk+"|no-lock-held-at-construction", "-", "constructor does not return holding a mutex; nothing to release")
+		// ... unless the store it belongs to owns a mutex: R18.8 names a constructor that never takes it
+		r18CtorHoldsLock(c, p, sh.named, "R18.8")
 		return
 	}
 	r18CtorHoldsLock(c, p, sh.named, "R18.8")
@@ -936,7 +938,15 @@ func endsTxn(fn *ssa.Function, prm *ssa.Parameter) bool {
 func r18CtorHoldsLock(c *core.Ctx, p *load.Program, named *types.Named, rule string) {
 	tk := typeKey(named)
 	for _, fn := range p.SrcFuncs() {
-		if !constructs(fn, named) || len(heldAtReturn(fn)) == 0 {
+		if !constructs(fn, named) {
+			continue
+		}
+		if len(heldAtReturn(fn)) == 0 {
+			// a store that owns a mutex hands out transactions that hold it: a constructor that takes no lock at all
+			// ("locked by the first operation") lets an idle or read-only transaction run inside another's
+			if mu := recvMutexField(fn); mu != "" {
+				c.Bad(rule, tk+"|"+fname(fn)+"|every-transaction-holds-the-lock", p.Pos(fn.Pos()), fmt.Sprintf("%s builds a transaction of a store that owns the mutex %s and returns without holding it on any path: the transaction is no critical section from Transaction() on — operations of two transactions interleave until each happens to take the lock, and a transaction that only reads never excludes a writer's partial effects", fname(fn), mu))
+			}
 			continue
 		}
 		ls := ssax.Locksets(fn, true, nil)
@@ -1095,4 +1105,27 @@ func storedField(a *ssa.Alloc, name string, depth int) ssa.Value {
 		return storedField(copied[0], name, depth+1)
 	}
 	return nil
+}
+
+// recvMutexField: the name of a sync.Mutex / sync.RWMutex field of fn's receiver struct ("" if none).
+func recvMutexField(fn *ssa.Function) string {
+	rp := recvParam(fn)
+	if rp == nil {
+		return ""
+	}
+	t := rp.Type()
+	if pt, ok := t.(*types.Pointer); ok {
+		t = pt.Elem()
+	}
+	st, ok := t.Underlying().(*types.Struct)
+	if !ok {
+		return ""
+	}
+	for i := 0; i < st.NumFields(); i++ {
+		ft := st.Field(i).Type().String()
+		if ft == "sync.Mutex" || ft == "sync.RWMutex" || ft == "*sync.Mutex" || ft == "*sync.RWMutex" {
+			return st.Field(i).Name()
+		}
+	}
+	return ""
 }
